@@ -8,7 +8,7 @@ import os
 import shutil
 import struct
 
-from .. import cands, enc, ledger, refmodel, seams, simnet, world
+from .. import cands, enc, ledger, refmodel, seams, simnet, thrscen, world
 from ..world import K
 
 LEVEL = 'model_checking'
@@ -62,6 +62,7 @@ class World:
         net.connections.clear()
         net.nodes.clear()
         net.clock.t = W['now0']
+        net._eph = 40000          # every execution starts from the same ephemeral-port counter
         self.net = net
         self.path = W['tpl'] + '.run%d' % os.getpid()
         shutil.copyfile(W['tpl'], self.path)
@@ -75,7 +76,9 @@ class World:
         self.node = simnet.SimNode(net, 'N', '10.0.0.1', W['base_cs'], disk=Disk())
         self.D = simnet.Remote(net, self.node, host='5.5.5.5')
         self.O = simnet.Remote(net, self.node, host='6.6.6.6')
-        self.D.hello(nonce=1)
+        # the deliverer's greeting carries a header time stamp one hour ahead of the node's clock (the sender chooses
+        # that field; nothing a peer says about time may move the node's own clock); the observer's is honest
+        self.D.hello(nonce=1, ts=int(W['now0']) + 3600)
         self.O.hello(nonce=2)
         self.node.tick()
         self.D.received()
@@ -414,6 +417,9 @@ def run(ctx):
                     sample = list(trace) + [nm]
         frontier = nxt
         ctx.log("depth", d + 1, "new states", len(nxt))
+    # ---- the schedule dimension: the networking thread handles a delivery while the miner thread publishes a found block
+    thr = thrscen.run(ctx, 'MN', 1 if ctx.quick else 2, only=['C09:'])
+    ctx.cov['thread_schedules'] = thr
     ctx.cov.update({
         'states': stats['states'], 'transitions': stats['transitions'], 'traces_validated_against_impl': stats['transitions'],
         'samples': [sample or []] + [list(f) for f in frontier[:2]],
@@ -428,6 +434,8 @@ def run(ctx):
 
 
 def replay(data, ctx):
+    if 'thread_scenario' in data:
+        return thrscen.replay(data)
     setup_worker()
     trace = tuple(data['trace'])
     closing = trace and trace[-1] == 'closing-valid'
